@@ -2,7 +2,8 @@
 import json
 import os
 
-from harness import core, forkpool, graph, replay, tlc
+from harness import core, forkpool, graph, tlc
+from harness import replay as rp
 from harness.simkernel import Thread, World, import_psutil
 
 FIXES = {"C04overflow", "C04race"}
@@ -252,12 +253,12 @@ def check(ctx):
     # (1) exhaustive
     r = tlc_check(ctx, "exhaustive-1iter", consts(maxobj=4 if thorough else 3))
     if r.violated:
-        replay.confirm_trace(ctx, r, run_events, lambda evs: (evs,), sig_of)
+        rp.confirm_trace(ctx, r, run_events, lambda evs: (evs,), sig_of)
     r2 = tlc_check(ctx, "exhaustive-2iter",
                    consts(pids=(1, 2) if thorough else (1,), iters=(1, 2), maxobj=3, maxinc=3 if thorough else 2,
                           maxup=2 if thorough else 1, tids=(), probe=()))
     if r2.violated:
-        replay.confirm_trace(ctx, r2, run_events, lambda evs: (evs,), sig_of)
+        rp.confirm_trace(ctx, r2, run_events, lambda evs: (evs,), sig_of)
     # signed finding still there?
     if KNOWN:
         r0 = tlc_check(ctx, "known-finding-probe", consts(maxobj=3, known=set()), props=["C04_Complete"])
@@ -302,9 +303,9 @@ def replay_all(ctx, thorough, vacuity=True, only=None):
         if only is not None and name not in only:
             continue
         g = graph.from_dump(rd)
-        jobs = replay.tour_jobs(ctx, g, None if thorough else pc, edge_class, maxlen=50)
+        jobs = rp.tour_jobs(ctx, g, None if thorough else pc, edge_class, maxlen=50)
         ctx.cov.setdefault('graphs', {})[name] = {'states': len(g.states), 'transitions': len(g.edges)}
-        ops |= set(replay.run_jobs(ctx, name, [(evs,) for _, evs in jobs], run_events, sig_of,
+        ops |= set(rp.run_jobs(ctx, name, [(evs,) for _, evs in jobs], run_events, sig_of,
                                    "replayed (transition tour)", nontrivial=lambda e: not e["op"].startswith("k_")))
     need = {"it_step:yield", "it_finish:None", "it_close:None", "cache_clear:None", "is_running:True",
             "is_running:False", "pid_exists:True", "pid_exists:False", "pids:.."}
@@ -314,8 +315,8 @@ def replay_all(ctx, thorough, vacuity=True, only=None):
         return
     # (3) deep random behaviours: 3 PIDs, 2 iterators
     cs = consts(pids=(1, 2, 3), iters=(1, 2), maxobj=9, maxinc=7, maxup=4, tids=(5, 6), probe=(0, 7, 97, 98, 99))
-    beh = replay.sim_behaviours(ctx, "ProcIter", "simulate-3pid-2iter", cs, 3000 if thorough else 500, 50)
-    replay.run_jobs(ctx, "simulate-3pid-2iter", [(evs,) for _, evs in beh], run_events, sig_of, "simulated",
+    beh = rp.sim_behaviours(ctx, "ProcIter", "simulate-3pid-2iter", cs, 3000 if thorough else 500, 50)
+    rp.run_jobs(ctx, "simulate-3pid-2iter", [(evs,) for _, evs in beh], run_events, sig_of, "simulated",
                     nontrivial=lambda e: not e["op"].startswith("k_"))
 
 
